@@ -53,7 +53,7 @@ func signSpec() *edt.Spec {
 		"isnil($opts.Verify)":                         "verifyNil",
 		"$opts.Verify.AllowNonCanonicalR":             "o.nonCanR",
 		"$opts.Verify.CofactorlessVerify":             "o.cofactorless",
-		"(0 < len($opts.Context))":                    "ctxNonEmpty",
+		"(len($opts.Context) == 0)":                   "!ctxNonEmpty",
 		"(255 < len($opts.Context))":                  "ctxTooLong",
 		"(crypto.SignerOpts.HashFunc($opts) == 7)":    "hashSHA512",
 		"(crypto.SignerOpts.HashFunc($opts) == 0)":    "hashZero",
